@@ -23,6 +23,8 @@ structure DSt where
   /-- DRACO_BITSTREAM_VERSION(major, minor) = major * 256 + minor -/
   version : Nat := 0
   status : Status := .ok
+  /-- reached-branch tags (diagnostics for generator coverage; newest first) -/
+  tags : List String := []
 deriving Repr
 
 abbrev DecM (α : Type) := DSt → Option α × DSt
@@ -52,6 +54,8 @@ instance : Monad DecM where
 /-- record an allocation of `n` bytes at `site` -/
 @[inline] def alloc (site : String) (n : Nat) : DecM Unit := fun s =>
   (some (), { s with allocs := (site, n) :: s.allocs })
+/-- record that a decoder branch was reached -/
+@[inline] def tag (t : String) : DecM Unit := fun s => (some (), { s with tags := t :: s.tags })
 @[inline] def declare (n : Nat) : DecM Unit := fun s => (some (), { s with declared := s.declared + n })
 @[inline] def ofOption {α} : Option α → DecM α
   | some a => ret a
